@@ -171,7 +171,7 @@ pub fn replay(a: &Args) {
     let mut out = Out::create(&a.out, "part_objects.ndjson");
     let mut mo = Out::create(&a.out, "part_merges.ndjson");
     let nlay = a.sz(2, 5);
-    let layouts: Vec<Layout> = (0..nlay).map(|i| Layout::new(m, &mut rng, i == 0)).collect();
+    let layouts: Vec<Layout> = (0..nlay).map(|i| if i == 1 { Layout::edges(m) } else { Layout::new(m, &mut rng, i == 0) }).collect();
     let mut parts: Vec<Vec<Iv>> = vec![];
     for (k, s) in scen.iter().enumerate() {
         if s.route == "push" {
